@@ -33,7 +33,7 @@ static int cb_error(scpi_t *ctx, int_fast16_t err) {
 }
 static scpi_result_t cb_control(scpi_t *ctx, scpi_ctrl_name_t ctrl, scpi_reg_val_t val) {
     h_env_t *e = env_of(ctx);
-    if (ctrl == SCPI_CTRL_SRQ && e->n_srq < 256) e->srq[e->n_srq++] = val;
+    if (ctrl == SCPI_CTRL_SRQ && e->n_srq < 256) { e->srq_stb[e->n_srq] = ctx->registers[SCPI_REG_STB]; e->srq[e->n_srq++] = val; }
     return SCPI_RES_OK;
 }
 static scpi_result_t cb_reset(scpi_t *ctx) { env_of(ctx)->resets++; return SCPI_RES_OK; }
